@@ -23,7 +23,7 @@ COMMON_TRUST = ('Trusted: Verus/Z3/rustc; the extractor/assembler (round-trip ch
 
 PLAN = {
     'C01': {
-        'bounded': ['phonetic_api', 'fixed_api', 'fixed_rules', 'user_files', 'suffix_forms', 'ansi'], 'static': ['context_glue'], 'kani': ['k_keycode_to_char'],
+        'bounded': ['phonetic_api', 'fixed_api', 'fixed_rules', 'user_files', 'suffix_forms', 'ansi', 'split'], 'static': ['context_glue'], 'kani': ['k_keycode_to_char'],
         'data': ['tables'],
         'level': 'proof', 'safety': True,
         'units': ['fixed_pkv_common', 'fixed_reph', 'fixed_session', 'layout', 'layout_get', 'rank', 'util', 'phon', 'pmeth', 'data', 'split', 'fixed_search'],
@@ -88,7 +88,7 @@ PLAN = {
         'note': COMMON_TRUST + 'include_from_dictionary (regex) is T2: assumed contract ph_dict; ASCII byte/char bridge axioms for &s[a..b].',
     },
     'C09': {
-        'bounded': ['learn_recall', 'update_engine'],
+        'bounded': ['learn_recall', 'update_engine', 'user_files'],
         'level': 'proof',
         'units': ['pmeth', 'phon', 'split', 'data'],
         'technique': 'Verus: functional postconditions of candidate_committed (store update + save attempt) and get_prev_selection (looked-up text, first index, derived entry) over String-keyed map views',
